@@ -15,6 +15,11 @@ fn verif_tick(id: String) -> isize {
     *e as isize
 }
 
+pub fn tick_count(id: &str) -> u64 {
+    let g = TICKS.lock().unwrap_or_else(|p| p.into_inner());
+    g.get(id).copied().unwrap_or(0)
+}
+
 pub fn ticks_json() -> Value {
     let g = TICKS.lock().unwrap_or_else(|p| p.into_inner());
     let m: serde_json::Map<String, Value> = g.iter().map(|(k, v)| (k.clone(), json!(v))).collect();
